@@ -1,9 +1,18 @@
 import Dnp3.Model.OutstationTrace
+import Dnp3.Proofs.OutstationC12
 /-!
 # C12 — Outstation replies are well-formed, correlated, bounded, and report rejections
+
+Property theorems over the outstation session model for ALL states / requests / histories.
+Definitions used in the statements (`Inv`, `DbContract`, `TxShape`, `SolResp`, `UnsolResp`,
+`SentOne`, `HasBits`, `Correlated`, `CbOnly`, `Good`) are in `Dnp3.Proofs.OutstationC12`; the
+statements are restated here verbatim and proved by the theorems of that file.
+Known defects (kept as exact characterisations + counterexamples): D7 (WRITE reports only the
+last header's result), D1 (OPERATE echo overflow panics), D13 (SELECT / DIRECT_OPERATE echo
+silently truncated).
 -/
 namespace Dnp3.Props.C12
-open Dnp3
+open Dnp3 Dnp3.Proofs.C12
 
 /-- every unsolicited response header has UNS, FIR, FIN and CON and function 0x82 -/
 theorem unsolicited_header_shape (seq size : Nat) (h : seq < 16) :
@@ -23,5 +32,172 @@ theorem empty_solicited_shape (seq iin2 : Nat) (h : seq < 16) :
       ((AppCtrl.mk true true false false s.val).toNat &&& 0xC0) = 0xC0 ∧
       ((AppCtrl.mk true true false false s.val).toNat &&& 0x0F) = s.val := by decide
   exact ⟨rfl, (this ⟨seq, h⟩).1, (this ⟨seq, h⟩).2.1, (this ⟨seq, h⟩).2.2, rfl⟩
+
+/-- the invariant is preserved by every step, from ANY state satisfying it -/
+theorem step_preserves_inv {cfg : OCfg} (hdb : DbContract) (env : OEnv) {s : OState} (h : Inv cfg s) (inp : OInput) :
+    Inv cfg (Outstation.step env s inp).1 :=
+  @Dnp3.Proofs.C12.step_preserves_inv cfg hdb env s h inp
+
+/-- **tx_shape**: every `.tx` output of a step from a state satisfying the invariant is well-formed -/
+theorem step_tx_shape {cfg : OCfg} (hdb : DbContract) (env : OEnv) {s : OState} (h : Inv cfg s) (inp : OInput)
+    (dst : Nat) (b : List Nat) (hb : OOut.tx dst b ∈ (Outstation.step env s inp).2) : TxShape cfg dst b :=
+  @Dnp3.Proofs.C12.step_tx_shape cfg hdb env s h inp dst b hb
+
+theorem reachable_inv {cfg : OCfg} (hdb : DbContract) {evMax : Nat} {env : OEnv} (hsol : 10 ≤ cfg.sol)
+    (hunsol : 4 ≤ cfg.unsol) {s : OState} (hr : Outstation.Reachable cfg evMax env s) : Inv cfg s :=
+  @Dnp3.Proofs.C12.reachable_inv cfg hdb evMax env hsol hunsol s hr
+
+/-- whole-trace form: construct with any configuration whose buffers have the library's minimum
+    sizes (the library enforces 249), run any inputs: every transmitted fragment is well-formed -/
+theorem trace_tx_shape {cfg : OCfg} (hdb : DbContract) (env : OEnv) (evMax : Nat) (hsol : 10 ≤ cfg.sol)
+    (hunsol : 4 ≤ cfg.unsol) (inputs : List OInput) :
+    ∀ outs ∈ (Outstation.start cfg evMax).2 :: (Outstation.run env (Outstation.start cfg evMax).1 inputs).2,
+      ∀ dst b, OOut.tx dst b ∈ outs → TxShape cfg dst b :=
+  @Dnp3.Proofs.C12.trace_tx_shape cfg hdb env evMax hsol hunsol inputs
+
+/-- **solicited_correlated** (idle path): whatever `handle_one_request_from_idle` appends to the
+    output is callbacks plus at most one transmission, and that transmission is correlated with
+    the request (this includes the echo of a stored response for a repeated request, by the invariant) -/
+theorem solicited_correlated_idle {cfg : OCfg} (hdb : DbContract) {a a' : Acc} (h : Good cfg a) {f : Frag}
+    {ctrl : AppCtrl} {func : Nat} {objects : Except Nat (List ObjHdr)} {raw : List Nat}
+    (hreq : parseRequest f.data = .request ctrl func objects raw) {series : Option Series}
+    (hh : handleRequestFromIdle a f ctrl func objects raw = some (a', series)) :
+    ∃ l, a'.2 = a.2 ++ l ∧ (∀ o ∈ l, Correlated f.src ctrl func o) ∧ (txFrags l).length ≤ 1 :=
+  @Dnp3.Proofs.C12.solicited_correlated_idle cfg hdb a a' h f ctrl func objects raw hreq series hh
+
+/-- **continuation fragments are correlated**: the fragment `solContinuation` transmits carries
+    `seq4Next` of the confirmed sequence number, FIR clear, UNS clear, function 0x81, to the confirmer -/
+theorem continuation_correlated {s : OState} {out : List OOut} {ecsn dst : Nat} {a2 : Acc} {r2 : Resp}
+    (hw : writeSolicited ((formatReadResponse s false (seq4Next ecsn) 0).1, out) dst
+            (formatReadResponse s false (seq4Next ecsn) 0).2.1 = some (a2, r2)) :
+    SentOne out a2.2 dst r2 ∧ r2.func = 0x81 ∧ r2.ctrl.seq = seq4Next ecsn ∧ r2.ctrl.fir = false ∧
+      r2.ctrl.uns = false :=
+  @Dnp3.Proofs.C12.continuation_correlated s out ecsn dst a2 r2 hw
+
+/-- **unsolicited_numbering** (new responses): when `check_unsolicited` starts a series it sends one
+    unsolicited response (0x82, FIR FIN CON UNS) numbered with the current `unsolSeq`, to the
+    configured master, and advances `unsolSeq` by `seq4Next`; when it starts none, nothing is
+    transmitted and the counter is unchanged -/
+theorem unsolicited_numbering {a : Acc} {x : Acc ⊕ (Acc × NextIdle)} (hc : checkUnsolicited a = some x) :
+    match x with
+    | .inl a' => ∃ r rest isNull retries,
+        a'.2 = a.2 ++ [.tx a.1.cfg.master (respHeader r ++ rest), .cb (.unsolWait a.1.unsolSeq)] ∧
+        r.ctrl = ⟨true, true, true, true, a.1.unsolSeq⟩ ∧ r.func = 0x82 ∧
+        a'.1.unsolSeq = seq4Next a.1.unsolSeq ∧
+        a'.1.mode = .unsolWait r isNull retries (a.1.now + a.1.cfg.ctimeout)
+    | .inr (a', _) => a'.2 = a.2 ∧ a'.1.unsolSeq = a.1.unsolSeq :=
+  @Dnp3.Proofs.C12.unsolicited_numbering a x hc
+
+/-- **unsolicited retries are verbatim**: a retry after a confirm timeout re-sends the stored
+    response record unchanged (same control octet, same function, same size) to the configured
+    master, keeps it stored, and does not touch the numbering -/
+theorem unsolicited_retry_verbatim (a : Acc) (resp : Resp) (isNull : Bool) (retries : Option Nat)
+    (hd : a.1.deferred = none) (hr : retries ≠ some 0) :
+    ∃ a' rest retries', unsolWaitTimeout a resp isNull retries = .blocked a' ∧
+      a'.2 = a.2 ++ [.cb (.unsolTimeout resp.ctrl.seq true), .tx a.1.cfg.master (respHeader resp ++ rest)] ∧
+      a'.1.mode = .unsolWait resp isNull retries' (a.1.now + a.1.cfg.ctimeout) ∧
+      a'.1.unsolSeq = a.1.unsolSeq :=
+  @Dnp3.Proofs.C12.unsolicited_retry_verbatim a resp isNull retries hd hr
+
+/-- the no-response functions never panic except … never: `handle_non_read` always returns -/
+theorem silent_functions_nonread_total (a : Acc) (func seq frameId : Nat) (hs : List ObjHdr) (raw : List Nat)
+    (hf : func = 6 ∨ func = 8 ∨ func = 10 ∨ func = 12) :
+    ∃ a', handleNonRead a func seq frameId hs raw = some (a', none) :=
+  @Dnp3.Proofs.C12.silent_functions_nonread_total a func seq frameId hs raw hf
+
+/-- **silent_functions** (idle path, `_partial`: the request is not byte-identical and
+    same-sequence with the stored previous request): a unicast request with a no-response function
+    code whose objects parse transmits nothing — only application callbacks are emitted — and no
+    confirm wait is entered.
+    Missing for the full statement: for a *repeat* of the previous request the session echoes the
+    stored response record; that record is `none` when the previous identical fragment was handled
+    as a no-response function, but proving it needs an extra invariant tying `lastReq.response` to
+    the function code inside `lastReq.frag` (the stored record can be `some` only if the identical
+    earlier fragment was answered, which for these function codes happens only on the malformed
+    path, and malformed fragments are classified before the repeat check). -/
+theorem silent_functions_partial {a a' : Acc} {f : Frag} {ctrl : AppCtrl} {func : Nat} {hs : List ObjHdr}
+    {raw : List Nat} {series : Option Series} (hf : func = 6 ∨ func = 8 ∨ func = 10 ∨ func = 12)
+    (hb : f.broadcast = none)
+    (hnodup : ∀ lr, a.1.lastReq = some lr → ¬ (lr.seq = ctrl.seq ∧ lr.frag = f.data))
+    (hh : handleRequestFromIdle a f ctrl func (.ok hs) raw = some (a', series)) :
+    series = none ∧ CbOnly a.2 a' ∧ txFrags a'.2 = txFrags a.2 :=
+  @Dnp3.Proofs.C12.silent_functions_partial a a' f ctrl func hs raw series hf hb hnodup hh
+
+/-- (a) a fragment whose application header is rejected (unknown function code, a response
+    function code, FIR/FIN not both set, UNS on a non-confirm) is answered — when the IIN can be
+    computed at all — with exactly one solicited response carrying the request's sequence number
+    and IIN2.0 NO_FUNC_CODE_SUPPORT -/
+theorem rejection_flagged_header {a : Acc} {dst seq : Nat} {x : OState × Nat × Nat}
+    (hg : getResponseIin a.1 = some x) :
+    ∃ a' r, writeErrorResponse a dst (some seq) = some a' ∧ SentOne a.2 a'.2 dst r ∧
+      r.func = 0x81 ∧ r.ctrl.seq = seq ∧ r.ctrl.fir = true ∧ r.ctrl.fin = true ∧ r.ctrl.uns = false ∧
+      HasBits r.iin2 iin2NoFunc :=
+  @Dnp3.Proofs.C12.rejection_flagged_header a dst seq x hg
+
+theorem parseObjects_error (isRead : Bool) (fuel : Nat) (d : List Nat) (e : Nat)
+    (h : parseObjects isRead fuel d = .error e) :
+    (e = iin2NoFunc ∨ e = iin2ObjUnknown ∨ e = iin2ParamError) ∧ e ≠ 0 :=
+  @Dnp3.Proofs.C12.parseObjects_error isRead fuel d e h
+
+/-- (b) a unicast request whose object headers do not parse is answered with the parse error's
+    IIN2 bit (`e ∈ {1,2,4}`, nonzero by `parseObjects_error`) and the request's sequence number -/
+theorem rejection_flagged_objects {a a' : Acc} {f : Frag} {ctrl : AppCtrl} {func : Nat} {e : Nat}
+    {raw : List Nat} {series : Option Series} (hf : func ≠ 0) (hb : f.broadcast = none)
+    (hh : handleRequestFromIdle a f ctrl func (.error e) raw = some (a', series)) :
+    ∃ r, SentOne a.2 a'.2 f.src r ∧ r.func = 0x81 ∧ r.ctrl.seq = ctrl.seq ∧ r.ctrl.fir = true ∧
+      r.ctrl.fin = true ∧ r.ctrl.uns = false ∧ HasBits r.iin2 e :=
+  @Dnp3.Proofs.C12.rejection_flagged_objects a a' f ctrl func e raw series hf hb hh
+
+/-- (c) a function code the session does not implement (default branch of `handle_non_read`:
+    anything but 2–14, 20, 21, 23, 24) yields NO_FUNC_CODE_SUPPORT -/
+theorem rejection_flagged_unsupported (a : Acc) (func seq frameId : Nat) (hs : List ObjHdr) (raw : List Nat)
+    (hf : func ∉ [2, 3, 4, 5, 6, 7, 8, 9, 10, 11, 12, 13, 14, 20, 21, 23, 24]) :
+    ∃ r, handleNonRead a func seq frameId hs raw = some (a, some r) ∧ r.ctrl.seq = seq ∧
+      HasBits r.iin2 iin2NoFunc :=
+  @Dnp3.Proofs.C12.rejection_flagged_unsupported a func seq frameId hs raw hf
+
+/-- (d) SELECT / OPERATE / DIRECT_OPERATE containing a header that is not a control header:
+    nothing is executed, PARAMETER_ERROR -/
+theorem rejection_flagged_controls (a : Acc) (func seq frameId : Nat) (hs : List ObjHdr) (raw : List Nat)
+    (hf : func = 3 ∨ func = 4 ∨ func = 5) (hbad : hs.all isControlHdr = false) :
+    ∃ r, handleNonRead a func seq frameId hs raw = some (a, some r) ∧ r.ctrl.seq = seq ∧
+      HasBits r.iin2 iin2ParamError :=
+  @Dnp3.Proofs.C12.rejection_flagged_controls a func seq frameId hs raw hf hbad
+
+/-- exact characterisation: the response IIN2 of a WRITE is the result of its last header, whatever
+    the earlier headers returned -/
+theorem write_last_header_wins (a : Acc) (seq : Nat) (pre : List ObjHdr) (h : ObjHdr) :
+    (handleWrite a seq (pre ++ [h])).2.iin2 = (handleWriteHeader (handleWrite a seq pre).1 h).2 :=
+  @Dnp3.Proofs.C12.write_last_header_wins a seq pre h
+
+/-- **D7**: the first header (write IIN1.4) is rejected with PARAMETER_ERROR, the second (clear
+    RESTART) succeeds, and the response record has IIN2 = 0 — in ANY state -/
+theorem write_rejection_lost_counterexample (a : Acc) :
+    (handleWriteHeader a d7Hdr1).2 = iin2ParamError ∧
+    (handleWrite a 1 [d7Hdr1, d7Hdr2]).2.iin2 = 0 ∧
+    ∃ a', handleNonRead a 2 1 0 [d7Hdr1, d7Hdr2] (d7Fragment.drop 2) = some (a', some (emptySolicited 1 0)) :=
+  @Dnp3.Proofs.C12.write_rejection_lost_counterexample a
+
+/-- **D1** (characterisation): an OPERATE whose headers are all control headers panics — the
+    `unwrap` on the cursor's `WriteError` — exactly when its echo does not fit the solicited
+    transmit buffer.  (The handler callbacks of an SBO run have been made by then.) -/
+theorem operate_echo_overflow_panics (a : Acc) (seq frameId : Nat) (hs : List ObjHdr) (raw : List Nat)
+    (hall : hs.all isControlHdr = true) :
+    handleControls a 4 seq frameId hs raw = none ↔ (operateRun a seq frameId hs raw).overflow = true :=
+  @Dnp3.Proofs.C12.operate_echo_overflow_panics a seq frameId hs raw hall
+
+/-- **D13**: SELECT and DIRECT_OPERATE whose echo does not fit do not fail: they answer with the
+    truncated echo (`size = 4 + out.length`) and a clean IIN2 from the handler (0), even when a
+    status was PARAMETER-worthy; SELECT does not arm the select state -/
+theorem select_echo_overflow_clean (a : Acc) (func seq frameId : Nat) (hs : List ObjHdr) (raw : List Nat)
+    (hf : func = 3 ∨ func = 5) (hall : hs.all isControlHdr = true)
+    (hov : (ctlAll (some (if func = 3 then CtlKind.select else CtlKind.dop)) 0 a.1.cfg.maxctl hs
+              { acc := a, cap := a.1.cfg.sol - 4 }).overflow = true) :
+    ∃ a' r, handleControls a func seq frameId hs raw = some (a', some r) ∧ r.iin2 = 0 ∧ r.ctrl.seq = seq ∧
+      r.size = 4 + (ctlAll (some (if func = 3 then CtlKind.select else CtlKind.dop)) 0 a.1.cfg.maxctl hs
+              { acc := a, cap := a.1.cfg.sol - 4 }).out.length ∧
+      (func = 3 → a'.1.select = (ctlFinish (ctlAll (some CtlKind.select) 0 a.1.cfg.maxctl hs
+              { acc := a, cap := a.1.cfg.sol - 4 })).acc.1.select) :=
+  @Dnp3.Proofs.C12.select_echo_overflow_clean a func seq frameId hs raw hf hall hov
 
 end Dnp3.Props.C12
